@@ -41,14 +41,13 @@ impl FileCache {
             }
     
             let result = result.unwrap();
-            let metadata = entry_metadata(&result);
-    
-            if let Err(e) = entry_metadata(&result) {
-                eprintln!("Encountered error while reading metadata: {}", e);
-                continue;
-            }
-    
-            let metadata = metadata.unwrap();
+            let metadata = match entry_metadata(&result) {
+                Ok(metadata) => metadata,
+                Err(e) => {
+                    eprintln!("Encountered error while reading metadata: {}", e);
+                    continue;
+                }
+            };
 
             if metadata.is_dir() {
                 continue;
@@ -90,14 +89,13 @@ impl FileCache {
         }
 
         let result = handle.unwrap();
-        let metadata = result.metadata();
-    
-        if let Err(e) = result.metadata() {
-            eprintln!("Encountered error while reading metadata {}", e);
-            return;
-        }
-
-        let metadata = metadata.unwrap();
+        let metadata = match result.metadata() {
+            Ok(metadata) => metadata,
+            Err(e) => {
+                eprintln!("Encountered error while reading metadata {}", e);
+                return;
+            }
+        };
 
         if metadata.is_dir() {
             return;
